@@ -14,8 +14,8 @@ From PngV Require Import Model.Reader Proofs.ReaderProofs.
 
 (* row calls *)
 Theorem C05_row_call_out_of_input_changes_nothing :
-  forall (im : image) (vis : nat) (s s' : rstate) (d : delivered),
-       step im vis s ORow = (s', REofR, d) -> s' = s /\ d = [].
+  forall (im : image) (vis : nat) (s s' : rstate) (d : delivered) (o : op),
+       is_row_op o -> step im vis s o = (s', REofR, d) -> s' = s /\ d = [].
 Proof. exact row_call_eof_changes_nothing. Qed.
 
 (* finish() *)
@@ -28,7 +28,7 @@ Proof. exact finish_is_resumable. Qed.
 Theorem C05_frame_call_is_resumable :
   forall (im : image) (v v' : nat) (s s1 : rstate) (d1 : delivered),
        v <= v' ->
-       flushed s = false ->
+       advancing s = false ->
        step im v s OFrame = (s1, REofR, d1) ->
        step im v' s OFrame = (let '(s2, r, d2) := step im v' s1 OFrame in (s2, r, d1 ++ d2)).
 Proof. exact frame_call_is_resumable. Qed.
